@@ -166,6 +166,7 @@ fn account(st: &mut Stats, w: &World, stratum: Stratum, v: &Verdict, info: &RunI
     st.add("checked/S1_syntax_spans", info.s1_checked as u64);
     st.add("checked/S2_semantic_spans", info.s2_checked as u64);
     st.add("checked/R6_standard_gate_names", info.r6_names_checked as u64);
+    st.add("checked/R6_user_gate_defined_first", info.r6_user_first as u64);
     st.add("checked/G3_torn_lexemes", info.g3_checked as u64);
     st.add("checked/reference_diagnostics_mapped", info.ref_diags as u64);
     for k in &info.sem_diag_kinds {
